@@ -538,6 +538,14 @@ func ruleOptionalDeref(fileScope func(string) bool, ruleID string, min int) func
 				}
 				se, ok := optionalField(info, star.X)
 				if !ok {
+					// a local that stands for an optional field (`dims := arr.Dimensions` ... `*dims`)
+					if id, isId := ast.Unparen(star.X).(*ast.Ident); isId {
+						if rhs, isAlias := npAliases[info.ObjectOf(id)]; isAlias {
+							se, ok = optionalField(info, rhs)
+						}
+					}
+				}
+				if !ok {
 					// a parameter that is a pointer to a scalar or a slice: callers hand optional fields to it
 					if id, isId := ast.Unparen(star.X).(*ast.Ident); isId && optionalParam(info, d, id) {
 						k := exprKey(info, id)
@@ -590,6 +598,9 @@ func ruleOptionalDeref(fileScope func(string) bool, ruleID string, min int) func
 				}
 				if nonNil[k] {
 					okFact = "tested non-nil on every path here"
+				}
+				if okFact == "" && validatedDimensions(info, d.Body, se) {
+					okFact = "validated: dimensionIndex() is rejected for arrays without named dimensions (resolveDimensionIndexFunctionCall), so Dimensions is set wherever a generator handles that call"
 				}
 				if okFact == "" && constructedNonNil(c, info, se) {
 					okFact = "unexported field that every composite literal of the struct in the module sets to a non-nil value"
@@ -1189,7 +1200,7 @@ func (na *nilAnalyzer) callerParamFact(info *types.Info, d *ast.FuncDecl, id *as
 			sites++
 			oinfo := na.c.DeclPkg(od).TypesInfo
 			arg := cs.Call.Args[pi]
-			if nonNilValue(oinfo, arg) {
+			if nonNilValue(oinfo, arg) || validatedDimensions(oinfo, od.Body, arg) {
 				continue
 			}
 			na.prepare(oinfo, od)
@@ -1211,4 +1222,57 @@ func (na *nilAnalyzer) callerParamFact(info *types.Info, d *ast.FuncDecl, id *as
 		return ""
 	}
 	return fmt.Sprintf("every call site (%d) passes a value known to be non-nil", sites)
+}
+
+// validatedDimensions: e is `<x>.Dimensions` and lies in the `case dsl.FunctionDimensionIndex:` clause of a switch (on the
+// function name of a call in a computed field). resolveDimensionIndexFunctionCall rejects dimensionIndex() on an
+// array without named dimensions — Dimensions == nil included — so the generators only ever see it with Dimensions set.
+func validatedDimensions(info *types.Info, root ast.Node, e ast.Expr) bool {
+	se, ok := ast.Unparen(e).(*ast.SelectorExpr)
+	if !ok || se.Sel.Name != "Dimensions" {
+		return false
+	}
+	found := false
+	isConst := func(x ast.Expr) bool {
+		var id *ast.Ident
+		switch y := ast.Unparen(x).(type) {
+		case *ast.Ident:
+			id = y
+		case *ast.SelectorExpr:
+			id = y.Sel
+		}
+		if id == nil {
+			return false
+		}
+		k, ok := info.Uses[id].(*types.Const)
+		return ok && k.Name() == "FunctionDimensionIndex"
+	}
+	ast.Inspect(root, func(n ast.Node) bool {
+		// `if call.FunctionName == dsl.FunctionDimensionIndex { ... }`
+		if ifs, isIf := n.(*ast.IfStmt); isIf && ifs.Body.Pos() <= e.Pos() && e.End() <= ifs.Body.End() {
+			if be, isB := ast.Unparen(ifs.Cond).(*ast.BinaryExpr); isB && be.Op == token.EQL && (isConst(be.X) || isConst(be.Y)) {
+				found = true
+			}
+		}
+		cc, ok := n.(*ast.CaseClause)
+		if !ok || !(cc.Pos() <= e.Pos() && e.End() <= cc.End()) {
+			return true
+		}
+		for _, l := range cc.List {
+			var id *ast.Ident
+			switch x := ast.Unparen(l).(type) {
+			case *ast.Ident:
+				id = x
+			case *ast.SelectorExpr:
+				id = x.Sel
+			}
+			if id != nil {
+				if k, isConst := info.Uses[id].(*types.Const); isConst && k.Name() == "FunctionDimensionIndex" {
+					found = true
+				}
+			}
+		}
+		return true
+	})
+	return found
 }
